@@ -46,7 +46,7 @@ def _work(seeds):
     for s in seeds:
         text, enc, code = treeprops.parse_case(s)
         fail = None
-        src = str(code)
+        src = text              # the text that was parsed (equal to str(code) as long as parsing is lossless, C01)
         ents = code.filter_html_entities()
         try:
             for o, kw in enumerate(treeprops.OPTS):
